@@ -155,7 +155,13 @@ func (w *World) execCrash(st *Step) *Violation {
 // VirtualLedger returns a copy of the durable registers overlaid with the
 // encoding of every pending slab and minus every pending deletion: exactly
 // what a commit would leave on the ledger.  Read-only with respect to the storage.
-func (w *World) VirtualLedger() (*SimLedger, error) {
+func (w *World) VirtualLedger() (*SimLedger, error) { return w.virtualLedger(false) }
+
+// ViewLedger is VirtualLedger plus the pending temporary-owner slabs (never durable,
+// but structurally checkable like any other slab).
+func (w *World) ViewLedger() (*SimLedger, error) { return w.virtualLedger(true) }
+
+func (w *World) virtualLedger(includeTemp bool) (*SimLedger, error) {
 	l := w.Ledger.Clone()
 	stored, removed, _, _ := atree.VerifLayerIDs(w.Storage)
 	sort.Slice(stored, func(i, j int) bool { return stored[i].Compare(stored[j]) < 0 })
@@ -163,7 +169,7 @@ func (w *World) VirtualLedger() (*SimLedger, error) {
 		delete(l.Regs, RegIDOf(id))
 	}
 	for _, id := range stored {
-		if id.HasTempAddress() {
+		if id.HasTempAddress() && !includeTemp {
 			continue
 		}
 		slab := w.Storage.RetrieveIfLoaded(id)
